@@ -39,7 +39,7 @@ def run(ctx):
     # 3. spec -> implementation: replay every case against the real Canonical::quorum
     cases = ctx.write_cases(res.cases)
     out = os.path.join(ctx.work, "verdicts.ndjson")
-    ctx.engine(ENGINE, ["--mode", "replay", "--cases", cases, "--out", out, "--threads", 12])
+    ctx.engine(ENGINE, ["--mode", "replay", "--cases", cases, "--out", out, "--threads", 12], timeout=7200)
     recs = ctx.read_ndjson(out)
     summary = [r for r in recs if r.get("summary")][0]
     drift = 0
